@@ -188,7 +188,7 @@ func ruleStateOnlyForVerifiedFrames(c *Ctx, rule string) {
 }
 
 func checkC06(c *Ctx) {
-	c.Explanation = "Decides structural necessary conditions of the week bookkeeping: (S1) state persistence — on every call path from the single-frame decoder to a store into a Handler time field the Handler travels by pointer; no local copy of a Handler (value receiver / by-value parameter / dereferenced copy) has its address handed to a function that mutates Handler fields, so no rollover update is lost; (S2) constellation separation — each converter reads and writes only the Handler fields of its own constellation; (S3) the message-type dispatch tables of the time converter and of the start-of-week lookup map {1074,1077}->GPS, {1084,1087}->Glonass, {1094,1097}->Galileo, {1124,1127}->Beidou and agree with each other (complete type domain); (S4) no Handler state is written on a path that returns a range error; (S5) the week advances only under a strict comparison (previous > current; Glonass day < previous day) and by exactly AddDate(0,0,7); (S6) the offset and limit constants have the required values (-18 s, -4 s, -3 h, 7*86400000-1, 6<<27+86400000-1, day shift 27, 24 h limit with >=), range checks use the required operators, times are week start + timestamp milliseconds, and the start-of-week display is computed after the conversion. (S8) every successful conversion replaces the remembered timestamp (day) of its constellation, unconditionally. (S9) nothing reachable from the handler constructor or the single-frame decoder reads the machine's clock (time.Now/Since/Until): the reported times depend on the start time and the frames only."
+	c.Explanation = "Decides structural necessary conditions of the week bookkeeping: (S1) state persistence — on every call path from the single-frame decoder to a store into a Handler time field the Handler travels by pointer; no local copy of a Handler (value receiver / by-value parameter / dereferenced copy) has its address handed to a function that mutates Handler fields, so no rollover update is lost; (S2) constellation separation — each converter reads and writes only the Handler fields of its own constellation; (S3) the message-type dispatch tables of the time converter and of the start-of-week lookup map {1074,1077}->GPS, {1084,1087}->Glonass, {1094,1097}->Galileo, {1124,1127}->Beidou and agree with each other (complete type domain); (S4) no Handler state is written on a path that returns a range error; (S5) the week advances only under a strict comparison (previous > current; Glonass day < previous day) and by exactly AddDate(0,0,7); (S6) the offset and limit constants have the required values (-18 s, -4 s, -3 h, 7*86400000-1, 6<<27+86400000-1, day shift 27, 24 h limit with >=), range checks use the required operators, times are week start + timestamp milliseconds, and the start-of-week display is computed after the conversion. (S8) every successful conversion replaces the remembered timestamp (day) of its constellation, unconditionally. (S9) nothing reachable from the handler constructor or the single-frame decoder reads the machine's clock (time.Now/Since/Until): the reported times depend on the start time and the frames only. (S10) the stream path hands on the single-frame decoder's message and error unchanged (rules of C01-R7), so a range error reported by the decoder is what the consumer sees."
 	c.NotDecided = "calendar arithmetic of time.Time; that the structural conditions are sufficient for every interleaving (numerical end-to-end equality is outside static analysis); the initial week derived from the start time (C17)."
 	P := c.P
 	H := P.Named("rtcm/handler", "Handler")
@@ -206,6 +206,11 @@ func checkC06(c *Ctx) {
 		ruleWallClockFree(c, "C06-S9", []*ssa.Function{hnew, getMsg})
 	} else {
 		c.Unresolved("C06-anchor", "rtcm/handler.New")
+	}
+	// ---- S10 what the decoder reports (a time, or the range error) is what the stream delivers: the
+	// C01-R7 rules (typed messages and their errors reach the stream only as the decoder's result)
+	if f := newFraming(c, "C06-S10"); f != nil {
+		conservationRules(f, "C06-S10", consOpts{returns: true, fetchO: fetchOpts{leaderOK: true, skipPairing: true}})
 	}
 	// ---- S1 lost update
 	mut := paramMutators(P, H)
